@@ -1,6 +1,6 @@
 """C17 JAX Newton minimisers never go uphill and make progress when they can.
 
-Mode P.  Enumerated space: objective x every point of a 5^d start grid (positive, exactly zero and
+Mode P.  Enumerated space: objective x every point of a 5^d (doublewell, d=2: 6^2) start grid (positive, exactly zero and
 negative curvature along the gradient) x maxiter x absdelta x call style, and on each element four
 separate checks (one case each, so that one root cause cannot hide another):
 
@@ -277,7 +277,14 @@ def check_ncg(kind, case):
                               best[0], t, e1, best[1], _ckey(case)),
                            finding_key="%s|negcurv|no-progress|status-%s" % (tag, _cls(st)), detail=detail)
     nontriv = lab0 != "stationary" and case["maxiter"] >= 1 and r["nit"] >= 1
-    return ok(nontrivial=nontriv, outcome="%s|start-%s|%s|status-%s" % (kind, lab0, "moved" if moved else "stayed", _cls(st)))
+    extra, stats = "", {}
+    if log:
+        its, trailing = _iterations_from_log(log)
+        nreset = sum(1 for _, n in its if n >= 7) + (trailing >= 7)
+        stats = dict(eager_line_search_resets=nreset, eager_energy_evaluations=len(log))
+        extra = "|ls-reset" if nreset else ""
+    return ok(nontrivial=nontriv, outcome="%s|start-%s|%s|status-%s%s" % (kind, lab0, "moved" if moved else "stayed", _cls(st), extra),
+              stats=stats)
 
 
 def check_trust(case):
